@@ -875,7 +875,17 @@ func (e *Engine) external(fr *frame, st *State, in *ssa.Call, f *ssa.Function, a
 		need(1, 4, "PutUint32")
 	case "(encoding/binary.bigEndian).PutUint64":
 		need(1, 8, "PutUint64")
-	case "bytes.Equal", "math.Floor", "math.Float32frombits", "math.Float32bits":
+	case "math.Floor":
+		e.fresh(st, in)
+		if len(args) == 1 { // floor(x) <= x
+			if b, ok := st.fub[e.vid(args[0])]; ok {
+				if st.fub == nil {
+					st.fub = map[string]FBound{}
+				}
+				st.fub[e.vid(in)] = b
+			}
+		}
+	case "bytes.Equal", "math.Float32frombits", "math.Float32bits":
 		e.fresh(st, in)
 	case "errors.New", "fmt.Errorf":
 		e.fresh(st, in)
